@@ -64,6 +64,8 @@ func saslScenario(s *Sim, params map[string]string) {
 		expectOK = false
 	case 5:
 		cfg.Sabotage = "auth-error"
+		// (any non-zero code is a rejection: UNKNOWN_SERVER_ERROR is -1)
+		cfg.AuthErrorCode = int16(Pick(t, "cfg", 58, 58, -1, 34, 33))
 		expectOK = false
 	case 6:
 		if mechName == "PLAIN" {
